@@ -7,6 +7,7 @@ import (
 
 	"github.com/blevesearch/bleve/v2/analysis"
 	"github.com/blevesearch/bleve/v2/registry"
+	"github.com/blevesearch/bleve/v2/util"
 )
 
 const Name = "hierarchy"
@@ -68,7 +69,7 @@ func (s *HierarchyFilter) buildToken(tokenStream analysis.TokenStream, soFar [][
 
 func HierarchyFilterConstructor(config map[string]interface{}, cache *registry.Cache) (analysis.TokenFilter, error) {
 	max := math.MaxInt64
-	maxVal, ok := config["max"].(float64)
+	maxVal, ok := util.ExtractNumericValFloat64(config["max"])
 	if ok {
 		max = int(maxVal)
 	}
